@@ -34,6 +34,7 @@ def apply(d, m):
 
 def one(m):
     d = selftest.make_copy()
+    core.clear_ctx_cache()      # scratch copies are one-shot: never reuse a context across them
     try:
         err = apply(d, m)
         if err:
